@@ -83,3 +83,9 @@ Example C35_structured_example :
   validate e = 0%N /\ is_short (epoch_string e) = false /\
   epoch_unmarshal_json (epoch_string e) = Some e /\ epoch_unmarshal_json (epoch_marshal_json e) = Some e.
 Proof. vm_compute. repeat split; reflexivity. Qed.
+
+(* the monitor's independent statement of which epochs are valid (zero epoch, or no explicitly empty list, at most 10
+   entries per list, strictly increasing, a common element) is exactly what the model of Validate accepts *)
+Theorem C35_valid_spec_is_validate : forall e : epoch, valid_spec e = (validate e =? 0)%N.
+Proof. exact valid_spec_is_validate. Qed.
+Print Assumptions C35_valid_spec_is_validate.
